@@ -12,7 +12,7 @@ SUM-INTO (generated-code model of the Into struct and enum handlers):
 """
 from ..report import Report
 from ..syn import es, pat_s, ty_s
-from ..terms import term_s, subterms, analyse_iter
+from ..terms import match_arms, term_s, subterms, analyse_iter
 from ..summ import (Summ, access, call_parts, block_stmts, marker_stmts, marker_of_pat, marker_of_expr, marker_of_type, atoms_after_loop)
 from ..facts import Facts, atom_s
 from ..genast import is_marker, marker_name
@@ -418,16 +418,16 @@ def check_enum(cx, fn, rep, facts):
 
 def binder_of_selection_into(S, bt):
     """like c09.binder_of_selection but the selection is a triple"""
-    if not (isinstance(bt, tuple) and bt[0] == 'proj' and bt[1] == 0 and isinstance(bt[2], tuple) and bt[2][0] == 'match'):
+    if not (isinstance(bt, tuple) and bt[0] == 'proj' and bt[1] == 0 and match_arms(bt[2]) is not None):
         return None
     m = bt[2]
-    scrut = m[1]
+    scrut, m_arms = match_arms(m)
     if not (isinstance(scrut, tuple) and scrut[0] == 'field' and scrut[2] == 'ident' and isinstance(scrut[1], tuple) and scrut[1][0] == 'proj' and scrut[1][1] == 1):
         return None
     sel = scrut[1][2]
     if parse_sel3(S, sel) is None:
         return None
-    arms = dict((p, v) for p, v in m[2:])
+    arms = dict((p, v) for p, v in m_arms)
     some = [v for p, v in arms.items() if p.startswith('Some(')]
     none = [v for p, v in arms.items() if p == 'None']
     if len(some) != 1 or len(none) != 1:
